@@ -1,7 +1,7 @@
 """C06 - heat of reaction and adiabatic reaction close the energy balance."""
 import random
 
-from harness import tlc
+from harness import par, tlc
 from harness.drivers import reactenergy as dr
 
 ASSUME = [
@@ -22,7 +22,8 @@ def key_of(step, clause, pre):
     return 'ReactEnergy:%s:%s,%s,%s,%s:%s' % (step['op'], rs['kind'], rs['basis'], 'tagged' if tagged else 'phase-less', pre['kind'] if len(pre['kind']) == 1 else 'multi', clause)
 
 
-def history(rng, k, n_steps):
+def history(seed, k, n_steps):
+    rng = random.Random(seed)
     w = dr.World()
     init = w.project()
     steps = []
@@ -71,7 +72,7 @@ def run(ctx):
     elif not r.ok:
         raise tlc.MachineryError(r.out[-3000:])
     ctx.note('MC ReactEnergy: %d distinct states, %d transitions' % (r.distinct, r.generated))
-    traces = [history(rng, k, 14) for k in range(150 if quick else 4000)]
+    traces = par.pmap(history, [('%d:%d' % (ctx.seed, k), k, 14) for k in range(150 if quick else 4000)])
     defs, cfgc = dr.tla_constants()
     stats = dict(ok=0, ooc=0, ops={}, literal=0)
     todo, n_traces = traces, 0
